@@ -30,9 +30,10 @@ inductive Level where
   | silenced | low | normal | high | over
   deriving Repr, DecidableEq
 
-/-- the `reason` strings that occur: "" (caller), "rollback", "replication_mutation", "random_mutation" -/
+/-- the `reason` strings that occur: "" (caller), "rollback", "replication_mutation", "random_mutation", and
+    "add_gene" (the audit record of a refused re-add) -/
 inductive Reason where
-  | user | rollback | replication | random
+  | user | rollback | replication | random | readd
   deriving Repr, DecidableEq
 
 /-- what an approval callback does when called: truthy result, falsy result, exception -/
@@ -124,9 +125,19 @@ def hash {η : Type} (H : List (Nat × ν) → η) (g : Genome ν) : η := H (ca
 
 /-! ### add_gene, set_expression -/
 
+/-- a refused attempt: nothing changes except that the attempt is appended to the log, flagged unapproved -/
+def refuseMut (g : Genome ν) (og : Gene ν) (n : Nat) (v : ν) (r : Reason) : Genome ν :=
+  { g with log := g.log ++ [⟨n, og.value, v, r, false⟩] }
+
+/-- `add_gene`: a new name is always accepted; an existing name is overwritten when mutations are enabled (not
+    logged) and REFUSED otherwise — the refusal is audited like a refused `mutate` (an unapproved entry
+    current value → offered value, reason "add_gene") -/
 def addGene (g : Genome ν) (x : Gene ν) : Genome ν × Bool :=
-  if (findGene g.genes x.name).isSome && !g.allow then (g, false)
-  else ({ g with genes := putGene g.genes x, expr := putLevel g.expr x.name x.defExpr }, true)
+  match findGene g.genes x.name with
+  | some og =>
+    if g.allow then ({ g with genes := putGene g.genes x, expr := putLevel g.expr x.name x.defExpr }, true)
+    else (refuseMut g og x.name x.value .readd, false)
+  | none => ({ g with genes := putGene g.genes x, expr := putLevel g.expr x.name x.defExpr }, true)
 
 def setExpr (g : Genome ν) (n : Nat) (l : Level) : Genome ν × Bool :=
   match findGene g.genes n with
@@ -142,9 +153,6 @@ inductive MRes (ν : Type) where
 
 def applyMut (g : Genome ν) (og : Gene ν) (n : Nat) (v : ν) (r : Reason) : Genome ν :=
   { g with genes := putGene g.genes { og with value := v }, log := g.log ++ [⟨n, og.value, v, r, true⟩] }
-
-def refuseMut (g : Genome ν) (og : Gene ν) (n : Nat) (v : ν) (r : Reason) : Genome ν :=
-  { g with log := g.log ++ [⟨n, og.value, v, r, false⟩] }
 
 def mutate (env : Env ν) (k : Nat) (g : Genome ν) (n : Nat) (v : ν) (r : Reason) : MRes ν :=
   match findGene g.genes n with
